@@ -111,6 +111,7 @@ class Roots:
         self.P = P
         self.extra = extra_transparent or (lambda callee: None)
         self.memo = {}
+        self.agg_fields = True
 
     def roots(self, v, path=()):
         key = (v, path)
@@ -121,6 +122,18 @@ class Roots:
         r = frozenset(self._roots(v, path))
         self.memo[key] = r
         return r
+
+    def closure_return_roots(self, cv):
+        """Roots of the value returned by a closure aggregate value (all exits)."""
+        if cv[0] != "agg" or cv[1] != "closure":
+            return None
+        cf = self.P.fn(cv[2])
+        if cf is None or cf.body is None:
+            return None
+        out = set()
+        for (b, i, cls, v) in exit_sites(self.P, cf):
+            out |= self.roots(v)
+        return out
 
     def _roots(self, v, path):
         k = v[0]
@@ -157,6 +170,14 @@ class Roots:
             if ti is not None and ti < len(v[4]):
                 return self.roots(v[4][ti], path)
             cs = generic_path(callee) if isinstance(callee, str) else "dyn"
+            if cs.endswith("option::Option::unwrap_or") and len(v[4]) == 2:
+                return {"or(%s;%s)%s" % ("|".join(sorted(self.roots(v[4][0], (("v", "Some"), ("f", 0))))),
+                                          "|".join(sorted(self.roots(v[4][1]))), path_str(path))}
+            if cs.endswith("option::Option::unwrap_or_else") and len(v[4]) == 2:
+                alt = self.closure_return_roots(v[4][1])
+                if alt is not None:
+                    return {"or(%s;%s)%s" % ("|".join(sorted(self.roots(v[4][0], (("v", "Some"), ("f", 0))))),
+                                              "|".join(sorted(alt)), path_str(path))}
             for rx, label, ai in WRAPPERS:
                 if rx.search(cs) and ai < len(v[4]):
                     pp = path_str(_strip_wrapper(path))
@@ -176,6 +197,9 @@ class Roots:
                 for name, fv in v[3]:
                     out |= self.roots(fv, p2[1:])
                 return out
+            if not p2 and v[1] == "adt" and self.agg_fields:
+                fs = ",".join("%s=%s" % (n, "|".join(sorted(self.roots(fv)))) for n, fv in v[3])
+                return {"A:%s{%s}" % (v[2], fs)}
             return {"A:%s%s" % (v[2], path_str(p2))}
         if k == "upd":
             prev, elems, newv = v[1], v[2], v[3]
